@@ -98,6 +98,9 @@ def ws(rng, empty_ok=True):
     return b'' if empty_ok and rng.random() < 0.25 else rng.choice(WS)
 
 
+SKIP_VALUES = [b'1', b'-2.5e3', b'"s"', b'true', b'{}', b'[]', b'{"x":[1,2],"y":{"z":"w"}}', b'[1,{"y":2},"t",[3]]', b'"a \\" b"']
+
+
 def key_text(name, mode):
     """bytes of the key as written, and the offset of the first name byte in it"""
     if mode == 'q': return b'"' + name + b'":', 1
@@ -186,6 +189,8 @@ def field_tests(ctx, sch, rng, per_name, tests):
                     g = rng.choice(scalars)
                     gv, _, gwant = U.value_for(sch, tdecl, g)
                     add(klass + '-skip', b'{' + kt + b'1,"' + g['name'].encode() + b'":' + gv + b'}', 1, ('OK', gwant), 1 + off, mode, None)
+                else:
+                    add(klass + '-skip', b'{' + kt + rng.choice(SKIP_VALUES) + b'}', 1, ('OK', {}), 1 + off, mode, None)
         # ---- quoted keys that contain bytes no identifier has
         some = sorted(declared)
         if len(some) > 6: some = rng.sample(some, 6)
@@ -316,6 +321,42 @@ def enum_tests(ctx, sch, rng, budget, tests):
             tests.append({'klass': 'enum-' + form + ('-neg' if neg else ''), 'sch': sch, 'flags': 2 | (1 if vmode in ('u,', 'uw,') else 0), 'path': U.path_ids(hops),
                           'json': U.wrap(hops, inner), 'want': want, 'mode': vmode, 'fn': fn, 'inner': inner, 'key_off': voff,
                           'wantkey': None, 'enum': (tdecl, f), 'note': text})
+
+
+def empty_table_tests(ctx, sch, rng, tests):
+    """Tables without a declared non-deprecated name, reached as table field, vector element or union member: whatever member
+    they are given is unknown - an error by default, skipped (scalar, string, object or array value) with skip_unknown."""
+    paths = U.table_paths(sch)
+    empties = {T3.cname(d['decl']) for d in sch.dicts.values() if d['kind'] == 'table' and not d['names']}
+    if not empties: return
+    for fn, d in sorted(sch.dicts.items()):
+        if d['kind'] != 'table' or T3.cname(d['decl']) not in paths: continue
+        tdecl, hops = d['decl'], paths[T3.cname(d['decl'])]
+        for f in tdecl['fields']:
+            if 'deprecated' in f['attrs']: continue
+            k, info = U.field_kind(sch, tdecl, f)
+            name = f['name'].encode()
+            shapes = []     # (prefix, suffix, expected present ids)
+            if k == 'table' and T3.cname(info) in empties:
+                if f['vec']: shapes.append((b'{"' + name + b'":[{},', b',{}]}', {f['id']}))
+                else: shapes.append((b'{"' + name + b'":', b'}', {f['id']}))
+            elif k == 'union':
+                for sym, _ in info['syms']:
+                    m = T3.resolve(sch.schema, info['ns'], sym) if sym != 'NONE' else None
+                    if m and m['kind'] == 'table' and T3.cname(m) in empties:
+                        if f['vec']: shapes.append((b'{"' + name + b'_type":["' + sym.encode() + b'"],"' + name + b'":[', b']}', {f['id'], f['id'] - 1}))
+                        else: shapes.append((b'{"' + name + b'_type":"' + sym.encode() + b'","' + name + b'":', b'}', {f['id'], f['id'] - 1}))
+            for pre, suf, ids in shapes:
+                for _ in range(6):
+                    key = U.rand_ident(rng, rng.choice([1, 3, 7, 8, 9, 16, 17]))
+                    mode = rng.choice(['q', 'u0', 'u1'])
+                    kt, off = key_text(key, mode)
+                    val = rng.choice(SKIP_VALUES)
+                    more = rng.choice([b'', b',"second":' + rng.choice(SKIP_VALUES), b',third:[]'])
+                    inner = pre + b'{' + ws(rng) + kt + val + more + ws(rng) + b'}' + suf
+                    for flags, want in ((1, ('OK', {i: ('present',) for i in ids})), (0, ('ERR', ERR_UNKNOWN))):
+                        tests.append({'klass': 'empty-table', 'sch': sch, 'flags': flags, 'path': U.path_ids(hops), 'json': U.wrap(hops, inner), 'want': want,
+                                      'mode': mode, 'fn': fn, 'inner': inner, 'key_off': 0, 'wantkey': None, 'note': '', 'nomodel': True})
 
 
 def enum_ws_tests(ctx, sch, rng, budget, tests):
@@ -510,6 +551,7 @@ def run(ctx):
     per_name = 60 if ctx.thorough else 7
     for s in allsch:
         field_tests(ctx, s, rng, per_name if s.origin != 'corpus' or ctx.thorough else 4, tests)
+        empty_table_tests(ctx, s, rng, tests)
         enum_tests(ctx, s, rng, 3000 if ctx.thorough else 220, tests)
         enum_list_tests(ctx, s, rng, 1500 if ctx.thorough else 150, tests)
         for _ in range(6 if ctx.thorough else 1): enum_ws_tests(ctx, s, rng, 400 if ctx.thorough else 60, tests)
